@@ -49,6 +49,22 @@ class EamRef(object):
   def declared_pair(self, key, a, b):
     return any((x, y) in ((a, b), (b, a)) for x, y, _ in self.model.get(key) or [])
 
+  def all_functions(self):
+    """[(oracle, step, count)] of every function the writers evaluate."""
+    nr, dr, nrho, drho = self.grids()
+    out = []
+    for s in self.order:
+      out.append((self.embed(s), drho, nrho))
+      if self.model["type"] == "fs":
+        for t in self.order:
+          out.append((self.density_fs(s, t), dr, nr))
+      else:
+        out.append((self.density(s), dr, nr))
+    for key in ("pair", "dipole", "quadrupole"):
+      for a, b, n in self.model.get(key) or []:
+        out.append((self.pairlike(key, a, b), dr, nr))
+    return out
+
   def grids(self):
     t = self.model["tab"]
     nr, nrho = int(t["nr"]), int(t["nrho"])
@@ -79,6 +95,22 @@ class EamRef(object):
     except (R.RefDomainError, ZeroDivisionError, ValueError, OverflowError):
       return False
     return True
+
+
+def overflow_is_out_of_domain(oracles_steps_counts, limit="1e280"):
+  """After the code under test raised OverflowError: True when some function's magnitude
+  (sum of |terms| of the reference, over ALL grid points) exceeds what doubles can hold - the
+  generated model then lies outside the forms' usable domain and the case is not judged."""
+  lim = mp.mpf(limit)
+  for orc, step, n in oracles_steps_counts:
+    for i in range(n):
+      x = R.F(step * i)
+      try:
+        if orc.m.max_submag(orc.node, x) > lim:
+          return True
+      except (R.RefDomainError, ZeroDivisionError, ValueError, OverflowError):
+        return True
+  return False
 
 
 def check_series(ctx, kind, toks, orc, step, idxs, where, scale_r=False, drift=True, rel=1e-9):
